@@ -61,6 +61,13 @@ def _make(name):
         def target(*args, **kwargs):
             LOG.append((name, _safe_copy(args), _safe_copy(kwargs)))
             raise RuntimeError('target ' + name + ' raises on purpose')
+    elif name.startswith('nested'):
+        def target(*args, **kwargs):
+            # a target that itself builds (and evaluates) another config while the outer evaluation is in progress
+            import awesomeyaml
+            inner = awesomeyaml.Config.build('q: !call:verif_targets.inner_' + name + ' {x: 1}\nr: !xref q\ns: [!xref q, !xref r]\n', raw_yaml=True)
+            LOG.append((name, _safe_copy(args), _safe_copy(kwargs)))
+            return Result(name, next(_counter), _safe_copy(args), {'inner_ok': inner['r'] is inner['q']})
     elif name.startswith('plain'):
         def target(*args, **kwargs):
             LOG.append((name, _safe_copy(args), _safe_copy(kwargs)))
